@@ -71,6 +71,11 @@ def parse_script(s):
 
 
 def run_case(line: str) -> str:
+    with vclock.CLOCK:
+        return _run_case(line)
+
+
+def _run_case(line: str) -> str:
     """line = '<chunk> <slice> <script> <accept> <op>*' → observation line"""
     toks = line.split()
     chunk, slice_, script, accept = int(toks[0]), int(toks[1]), parse_script(toks[2]), toks[3]
